@@ -1,4 +1,4 @@
-import Octo.Lemmas.JsonPipeMeasure
+import Octo.Lemmas.JsonPipeProgress
 /-!
 # C29 — protocol-level part: the JSON datasource pipeline neither deadlocks nor runs for ever
 
@@ -9,16 +9,6 @@ Data races (Go memory model) are outside this model — see notes/C29.md.
 -/
 namespace Octo.C29
 open Octo.JsonPipe
-
-theorem busyWith_pos {wk : Nat → Option Job} {n w : Nat} {j : Job} (hw : w < n) (h : wk w = some j) :
-    0 < busyWith wk j.pipe n := by
-  induction n with
-  | zero => omega
-  | succ n ih =>
-    simp only [busyWith]
-    by_cases hn : w = n
-    · subst hn; simp [h, jobCnt]
-    · have := ih (by omega); omega
 
 /-- **Token invariant.** In every reachable state, for every running datasource: every job between the reader's
 token acquisition and the consumer's token release, and every batch waiting in `outChan`, holds a token; there
@@ -39,16 +29,8 @@ theorem outChan_bounded {s : State} (h : Reachable s) {p : Nat} (hp : p < s.np) 
 `job.outChan <- outJobs` is enabled — whatever the consumer of that datasource is doing (slow, suspended inside
 `produce`, gone). This is why one datasource cannot wedge the global pool. -/
 theorem worker_never_blocks {s : State} (h : Reachable s) {w : Nat} {j : Job} (hw : w < s.nw)
-    (hj : s.worker w = some j) : (step s (.wSend w)).isSome = true := by
-  have ht := reachable_tokInv h
-  have hjp := ht.workersValid w j hj
-  have h1 := ht.le j.pipe hjp
-  have h2 := ht.cap j.pipe hjp
-  have h3 := busyWith_pos hw hj
-  have := tokCap_le_outCap
-  simp only [inflight] at h1
-  have hlen : (s.pipe j.pipe).out.length < outCap := by omega
-  simp [step, hj, hw, hlen]
+    (hj : s.worker w = some j) : (step s (.wSend w)).isSome = true :=
+  worker_send_enabled h hw hj
 
 /-- The consumer's `<-outChanAvailableTokens` (outside any `select`) never blocks: after receiving a batch there
 is a token to take. -/
@@ -96,5 +78,110 @@ theorem schedules_are_finite {s t : State} {sched : List Action} (h : Reachable 
       have := ih (reachable_step h hsa) hr
       have := every_step_decreases h hsa
       simp only [List.length_cons]; omega
+
+/-- **No deadlock, and the pool cannot be wedged.** In every reachable state, a datasource that is not finished
+(its `Run` has not returned, or its reader goroutine has not ended, or one of its jobs is still in the pool) can be
+advanced by a pool worker or by its own reader / consumer. No other datasource's consumer is needed (it may be
+suspended inside `produce` for ever), and neither is the environment (`pCancel`). -/
+theorem pool_never_wedged {s : State} (h : Reachable s) {p : Nat} (hp : p < s.np) (hnf : ¬ s.pipeFinal p) :
+    ∃ a, (a.isWorker = true ∨ a.ofPipe p = true) ∧ (step s a).isSome = true :=
+  Octo.JsonPipe.pool_never_wedged h hp hnf
+
+/-- **Deadlock freedom.** A reachable state in which no worker / reader / consumer action is enabled is final. -/
+theorem deadlock_free {s : State} (h : Reachable s)
+    (hstuck : ∀ a, (∃ p, a.isWorker = true ∨ a.ofPipe p = true) → step s a = none) : s.final := by
+  intro p hp
+  apply Classical.byContradiction
+  intro hnf
+  obtain ⟨a, ha, hen⟩ := pool_never_wedged h hp hnf
+  rw [hstuck a ⟨p, ha⟩] at hen
+  simp at hen
+
+/-- the consumer's two reads of the shared variable `linesRead`: the check after a batch (evaluated only when
+`fileReaderIsDone`), and the check in the `done` branch (after a nil error was received) -/
+def ReadsLinesRead (s : State) (a : Action) (p : Nat) : Prop :=
+  (a = .cProc p ∧ (s.pipe p).readerDone = true) ∨ (a = .cDone p ∧ (s.pipe p).done = some false)
+
+/-- **`linesRead` is handed over through `done`.** Whenever the consumer reads `linesRead`, the reader goroutine
+has already returned (it wrote `linesRead` for the last time before it sent on `done`), and no later state has the
+reader running or a different value of `linesRead`: the variable is never written after, or concurrently with, a
+read. -/
+theorem linesRead_ordered {s s' : State} {a : Action} {p : Nat} (h : Reachable s) (hp : p < s.np)
+    (hs : step s a = some s') (hr : ReadsLinesRead s a p) :
+    (s.pipe p).rpc = .exit ∧
+    ∀ sched t, run s' sched = some t → (t.pipe p).rpc = .exit ∧ (t.pipe p).linesRead = (s.pipe p).linesRead := by
+  have hpi := reachable_pinv h p hp
+  have hx : (s.pipe p).rpc = .exit := by
+    rcases hr with ⟨_, h1⟩ | ⟨_, h1⟩
+    · exact hpi.doneSent (Or.inr (hpi.rdNil h1))
+    · exact hpi.doneSent (Or.inl (by simp [h1]))
+  refine ⟨hx, fun sched t hrun => ?_⟩
+  have : run s (a :: sched) = some t := by simp [run, hs, hrun]
+  exact run_exit_stable this hx
+
+/-- the batches in `outChan`, in the job channel and at the workers were all submitted by the reader of their
+datasource, and a reader's batches are consecutive line ranges starting at line 0 -/
+theorem batches_are_consecutive {s : State} (h : Reachable s) {p : Nat} (hp : p < s.np) :
+    Chain 0 (s.pipe p).sub (subEnd (s.pipe p)) ∧ (∀ j, j ∈ (s.pipe p).out → j ∈ (s.pipe p).sub) :=
+  ⟨(reachable_qinv h p hp).chain, (reachable_subInv h).out p⟩
+
+/-! ## the protocol-level statement for the JSON pipeline -/
+
+/-- What C29 says about the JSON pipeline, as far as it is a statement about the protocol: for every number of
+workers, every set of concurrently running datasources over finite inputs (with malformed lines, scanner errors,
+LIMIT / downstream errors, cancellation of the parent context at any moment) and every schedule:
+no blocking operation outside a `select` ever blocks, nothing deadlocks, everything terminates, and the shared
+variable `linesRead` is read only after its last write. -/
+def JsonStatement : Prop :=
+  ∀ s, Reachable s →
+    (∀ w j, w < s.nw → s.worker w = some j → (step s (.wSend w)).isSome = true) ∧
+    (∀ p j, p < s.np → (s.pipe p).cpc = .tok j → (step s (.cTok p)).isSome = true) ∧
+    (∀ p, p < s.np → ¬ s.pipeFinal p → ∃ a, (a.isWorker = true ∨ a.ofPipe p = true) ∧ (step s a).isSome = true) ∧
+    (∀ sched t, run s sched = some t → sched.length ≤ measure s) ∧
+    (∀ a s' p, p < s.np → step s a = some s' → ReadsLinesRead s a p → (s.pipe p).rpc = .exit)
+
+theorem json_pipeline_full : JsonStatement := by
+  intro s h
+  refine ⟨fun w j hw hj => worker_never_blocks h hw hj, fun p j hp hc => consumer_token_available h hp hc,
+    fun p hp hnf => pool_never_wedged h hp hnf, fun sched t hr => ?_, fun a s' p hp hs hr => (linesRead_ordered h hp hs hr).1⟩
+  have := schedules_are_finite h hr; omega
+
+/-! ## non-vacuity: concrete reachable runs -/
+
+/-- one datasource with 3 lines in batches of 2, two workers; the second batch overtakes the first -/
+def exState : State := State.init 2 [Pipe.init 3 2 false [] none]
+def exSched : List Action :=
+  [.rTok 0, .rSub 0, .rWrite 0, .wTake 1 0, .rTok 0, .rSub 0, .rWrite 0, .rDone 0, .wTake 0 0,
+   .wSend 0, .cRecv 0 0, .cTok 0, .cProc 0, .cDone 0, .wSend 1, .cRecv 0 0, .cTok 0, .cProc 0, .cCancel 0]
+
+example : (run exState exSched).map (fun t => ((t.pipe 0).cpc, (t.pipe 0).rpc, (t.pipe 0).produced, (t.pipe 0).ret))
+    = some (.exit, .exit, 3, .ok) := by decide
+
+theorem exState_reachable : Reachable exState :=
+  ⟨2, [Pipe.init 3 2 false [] none], [], by decide, fun P hP => by
+    simp only [List.mem_singleton] at hP; subst hP; exact ⟨3, 2, false, [], none, by decide, rfl⟩, rfl⟩
+
+/-- the hypotheses of the theorems are satisfiable by a state with a busy worker and a full pipeline stage -/
+example : ∃ s, Reachable s ∧ s.worker 1 = some ⟨0, 0, 2⟩ ∧ (s.pipe 0).tokens = 2 ∧ ¬ s.pipeFinal 0 := by
+  have hr : (run exState (exSched.take 8)).isSome = true := by decide
+  cases hrun : run exState (exSched.take 8) with
+  | none => rw [hrun] at hr; contradiction
+  | some t =>
+    refine ⟨t, reachable_run exState_reachable hrun, ?_, ?_, ?_⟩
+    · have : (run exState (exSched.take 8)).map (fun t => t.worker 1) = some (some ⟨0, 0, 2⟩) := by decide
+      rw [hrun] at this; simpa using this
+    · have : (run exState (exSched.take 8)).map (fun t => (t.pipe 0).tokens) = some 2 := by decide
+      rw [hrun] at this; simpa using this
+    · have : (run exState (exSched.take 8)).map (fun t => (t.pipe 0).cpc) = some .sel := by decide
+      rw [hrun] at this
+      intro hf
+      have h2 : (t.pipe 0).cpc = .sel := by simpa using this
+      rw [hf.1] at h2; contradiction
+
+/-- early stop: LIMIT 1 on the same input — the consumer returns, the reader takes its `ctx.Done` branch, the worker
+drops or delivers; everything ends -/
+example : (run (State.init 1 [Pipe.init 3 2 false [] (some 1)])
+    [.rTok 0, .rSub 0, .rWrite 0, .wTake 0 0, .wSend 0, .cRecv 0 0, .cTok 0, .cProc 0, .cCancel 0, .rStop 0]).map
+      (fun t => ((t.pipe 0).ret, (t.pipe 0).produced, decide (t.pipeFinal 0))) = some (.stop, 1, true) := by decide
 
 end Octo.C29
